@@ -355,8 +355,14 @@ def roundtrip_predicate(case, data=None):
     r = real_read(data)
     if r[0] == "err":
         tags = ["reader-rejects-written-file"]
-        if want["bext"] is not None and len(want["bext"]) & 1:
-            tags.append("odd-bext")
+        b = want["bext"]
+        if b is not None and len(b) & 1:
+            # classifier for the defect fixed in 028deee: odd-length bext body followed directly by the next
+            # chunk id (or the end of the file) instead of a pad byte
+            i = data.find(b"bext" + struct.pack("<I", len(b)) + b)
+            after = data[i + 8 + len(b): i + 12 + len(b)] if i >= 0 else None
+            if after is not None and (after == b"" or after in (b"data", b"chna", b"axml")):
+                tags.append("odd-bext-no-pad")
         return ("reader rejects a file written by the writer", r[1], tags)
     _, res, samples, chna = r
     if res["warns"]:
@@ -498,7 +504,7 @@ class C09(Spec):
 
     def correspond(self, ctx):
         driver = Driver("c09driver", "Earverif.Driver.C09")
-        cases = grid_cases(ctx.rng, 300 if ctx.quick else 8000)
+        cases = grid_cases(ctx.rng, 1200 if ctx.quick else 10000)
         self._run(ctx, cases, driver)
 
     def search(self, ctx, deep):
